@@ -16,7 +16,7 @@ func init() {
 			"(R1) in (*Torrent).MetadataComplete the first irreversible effect (Pieces.MetadataComplete, the publication of infoComplete) is dominated by each required validation — pieces length multiple of 20, piece length non-zero and a multiple of the block size, length/files exclusivity, every file length non-negative, every path non-empty, name non-empty, block count fits the integer types, hash table matches ceil(length/piece length) — and no error return is reachable after that first effect; " +
 			"(R2) arithmetic on metainfo is guarded: divisors non-zero at the call sites that pass them, the hash-table slicing loop stays in bounds (stride lemma), allocation sizes are guarded; " +
 			"(R3) identity: the SHA-1 is taken over the raw info bytes exactly as decoded and the same bytes are stored and re-emitted; WriteTorrent emits URL() of every tracker and web seed over the full ranges and omits announce-list only when there is at most one tracker; (R4) magnet slicing is dominated by the matching prefix test.",
-		Rules: []string{"R1 publication dominated by validation guards; no error after first effect", "R2 guarded arithmetic on metainfo (E-int, stride lemma)", "R3 identity of info bytes, trackers and web seeds (def-use)", "R4 ReadMagnet slicing guarded"},
+		Rules:       []string{"R1 publication dominated by validation guards; no error after first effect", "R2 guarded arithmetic on metainfo (E-int, stride lemma)", "R3 identity of info bytes, trackers and web seeds (def-use)", "R4 ReadMagnet slicing guarded"},
 		NotDecided:  []string{"totality of the third-party bencode decoder", "that file offsets are the running sum of lengths (value; overflow of the sum)", "round-trip equality of the re-emitted file for all inputs"},
 		Assumptions: []string{"github.com/zeebo/bencode decodes RawMessage as the exact input bytes"},
 		Run:         runC13,
@@ -964,31 +964,31 @@ func c13R4(r *Report) {
 	}
 	for _, in := range body {
 		func(in ssa.Instruction) {
-		sl, ok := in.(*ssa.Slice)
-		if !ok || sl.Low == nil {
-			return
-		}
-		if b, ok := sl.X.Type().Underlying().(*types.Basic); !ok || b.Info()&types.IsString == 0 {
-			return
-		}
-		k, okk := constInt(sl.Low)
-		if !okk {
-			return
-		}
-		n++
-		guarded := false
-		for _, g := range guardsOf(sl.Block()) {
-			g = g.norm()
-			c, okc := g.Cond.(*ssa.Call)
-			if !okc || !g.Pol || !isStdCall(c, "strings", "", "HasPrefix") {
-				continue
+			sl, ok := in.(*ssa.Slice)
+			if !ok || sl.Low == nil {
+				return
 			}
-			pre, okp := constString(c.Call.Args[1])
-			if okp && int64(len(pre)) >= k && c.Call.Args[0] == sl.X {
-				guarded = true
+			if b, ok := sl.X.Type().Underlying().(*types.Basic); !ok || b.Info()&types.IsString == 0 {
+				return
 			}
-		}
-		r.Check(guarded, "R4", fmt.Sprintf("ReadMagnet/v[%d:]", k), sl.Pos(), "the slice is dominated by HasPrefix with a prefix at least as long", "the string is sliced at a constant offset without a dominating prefix test of at least that length")
+			k, okk := constInt(sl.Low)
+			if !okk {
+				return
+			}
+			n++
+			guarded := false
+			for _, g := range guardsOf(sl.Block()) {
+				g = g.norm()
+				c, okc := g.Cond.(*ssa.Call)
+				if !okc || !g.Pol || !isStdCall(c, "strings", "", "HasPrefix") {
+					continue
+				}
+				pre, okp := constString(c.Call.Args[1])
+				if okp && int64(len(pre)) >= k && c.Call.Args[0] == sl.X {
+					guarded = true
+				}
+			}
+			r.Check(guarded, "R4", fmt.Sprintf("ReadMagnet/v[%d:]", k), sl.Pos(), "the slice is dominated by HasPrefix with a prefix at least as long", "the string is sliced at a constant offset without a dominating prefix test of at least that length")
 		}(in)
 	}
 	// a parser written without constant-offset slicing (strings.CutPrefix) has nothing to guard: zero instances is
